@@ -68,6 +68,9 @@ def mentions(t, sub) -> bool:
 
 def run(ctx):
     repo = ctx.repo
+    from . import cachecoh
+    cachecoh.rule(ctx, "C03.stale", ("aspire.flows", "aspire.transforms"),
+                  "the density returned with draws and the density evaluated at them disagree (or the Jacobian of the data transform is that of an earlier fit)")
     classes = flow_classes(repo)
     ctx.floor("flow back-end classes implementing log_prob", len(classes), 3)
     for c in classes:
